@@ -275,12 +275,22 @@ def real_stream_worker(args):
     return out
 
 
-def model_shape(forest, names, text):
+def md_unescape(s):
+    """html.unescape as span_tokenizer.tokenize applies it: with html._charref swapped for _markdown_charref"""
     import html
+    from mistletoe import span_tokenizer
+    try:
+        html._charref = span_tokenizer._markdown_charref
+        return html.unescape(s)
+    finally:
+        html._charref = span_tokenizer._stdlib_charref
+
+
+def model_shape(forest, names, text):
     res = []
     for it in forest:
         if it[0] == 0:
-            res.append(['RawText', html.unescape(text[it[1]:it[2]])])
+            res.append(['RawText', md_unescape(text[it[1]:it[2]])])
         else:
             res.append([names[it[1]], model_shape(it[3], names, text) if it[2] else None])
     return res
